@@ -171,7 +171,15 @@ class _Flow(Exception):
         self.kind = kind
 
 
-def run_stmts(stmts, env: dict, on_call=None, budget: int = 2000):
+class _Unknown:
+    def __repr__(self):
+        return "<unknown>"
+
+
+_UNKNOWN = _Unknown()
+
+
+def run_stmts(stmts, env: dict, on_call=None, budget: int = 2000, on_store=None):
     """Execute a small statement list over the integer/boolean environment ``env`` (mutated in place):
     assignments to names, if/elif/else, pass, continue/break/return (reported by name), expression
     statements that are calls (handed to ``on_call(text, call)``).  Anything else → PredUnsupported.
@@ -193,16 +201,19 @@ def run_stmts(stmts, env: dict, on_call=None, budget: int = 2000):
             tg = st.targets if isinstance(st, ast.Assign) else [st.target]
             try:
                 v = ev(st.value, env)
+                known = True
             except PredUnsupported:
                 # an unmodelled right-hand side: the name becomes unknown (an error only if it is used)
-                for t in tg:
-                    if isinstance(t, ast.Name):
-                        env.pop(t.id, None)
-                continue
+                v, known = None, False
             for t in tg:
+                if on_store is not None and not isinstance(t, ast.Name):
+                    on_store(t, st.value, v if known else _UNKNOWN)
                 if isinstance(t, (ast.Name, ast.Attribute)):
-                    env[norm(t)] = v
-                else:
+                    if known:
+                        env[norm(t)] = v
+                    else:
+                        env.pop(norm(t), None)
+                elif on_store is None and known:
                     raise PredUnsupported(f"store `{norm(t)}`")
             continue
         if isinstance(st, ast.AugAssign) and isinstance(st.target, (ast.Name, ast.Attribute)):
@@ -214,7 +225,7 @@ def run_stmts(stmts, env: dict, on_call=None, budget: int = 2000):
             env[norm(st.target)] = op(cur, val)
             continue
         if isinstance(st, ast.If):
-            r = run_stmts(st.body if ev(st.test, env) else st.orelse, env, on_call)
+            r = run_stmts(st.body if ev(st.test, env) else st.orelse, env, on_call, budget, on_store)
             if r != "fallthrough":
                 return r
             continue
@@ -223,6 +234,13 @@ def run_stmts(stmts, env: dict, on_call=None, budget: int = 2000):
         if isinstance(st, ast.Break):
             return "break"
         if isinstance(st, ast.Return):
+            if st.value is not None:
+                try:
+                    env["<return>"] = ev(st.value, env)
+                except PredUnsupported:
+                    env["<return>"] = _UNKNOWN
+            else:
+                env["<return>"] = None
             return "return"
         raise PredUnsupported(f"statement `{norm(st)[:60]}` is outside the predicate fragment")
     return "fallthrough"
